@@ -89,8 +89,8 @@ def glyph_points(name):
     return segs
 
 
-PALETTE = [CpalColor(red=0, green=0, blue=0, alpha=255), CpalColor(red=255, green=0, blue=0, alpha=255), CpalColor(red=1, green=2, blue=250, alpha=128)]
-PALETTE2 = [CpalColor(red=9, green=9, blue=9, alpha=255), CpalColor(red=0, green=255, blue=0, alpha=255), CpalColor(red=0, green=0, blue=255, alpha=255)]
+PALETTE = [CpalColor(red=0, green=0, blue=0, alpha=255), CpalColor(red=255, green=0, blue=0, alpha=255), CpalColor(red=1, green=2, blue=250, alpha=128), CpalColor(red=0, green=0, blue=0, alpha=64)]
+PALETTE2 = [CpalColor(red=9, green=9, blue=9, alpha=255), CpalColor(red=0, green=255, blue=0, alpha=255), CpalColor(red=0, green=0, blue=255, alpha=255), CpalColor(red=0, green=0, blue=0, alpha=64)]
 
 
 class Font(dict):
@@ -195,8 +195,8 @@ def layers_ref(first, n):
     return _p(1, FirstLayerIndex=first, NumLayers=n)
 
 
-def composite(src, alpha_name="ga"):
-    return _p(32, CompositeMode=5, SourcePaint=src, BackdropPaint=_p(2, PaletteIndex=0, Alpha=R(alpha_name, 0, 1)))
+def composite(src, alpha_name="ga", idx=0):
+    return _p(32, CompositeMode=5, SourcePaint=src, BackdropPaint=_p(2, PaletteIndex=idx, Alpha=R(alpha_name, 0, 1)))
 
 
 XFORMS = ["Transform", "Translate", "Scale", "ScaleAroundCenter", "ScaleUniform", "ScaleUniformAroundCenter", "Rotate", "RotateAroundCenter", "Skew", "SkewAroundCenter"]
@@ -260,10 +260,11 @@ def T_nested_layers2():
     return build
 
 
-def T_group():
+def T_group(idx=0):
+    """group opacity = backdrop paint alpha x the alpha of its (black) palette entry"""
     def build():
         ll = [glyph("sq", solid(1, n="a0")), xform("Translate", glyph("tri", solid(2, n="a1")))]
-        return composite(layers_ref(0, 2)), ll, []
+        return composite(layers_ref(0, 2), idx=idx), ll, []
     return build
 
 
@@ -331,6 +332,7 @@ TEMPLATES["layers(+nested,currentColor,composite glyph)"] = T_layers()
 TEMPLATES["layers>Scale>layers"] = T_nested_layers()
 TEMPLATES["layers>[glyph,Translate>layers]"] = T_nested_layers2()
 TEMPLATES["group-opacity composite"] = T_group()
+TEMPLATES["group-opacity composite (translucent black palette entry)"] = T_group(3)
 TEMPLATES["PaintColrGlyph"] = T_colrglyph(False)
 TEMPLATES["Transform>PaintColrGlyph"] = T_colrglyph(True)
 TEMPLATES["three glyphs sharing a gradient"] = T_shared_gradient()
@@ -342,7 +344,7 @@ if os.environ.get("C13_PROBE"):
 
 QUICK = ["Transform>glyph>solid", "Translate>glyph>solid", "ScaleAroundCenter>glyph>solid", "RotateAroundCenter>glyph>solid", "SkewAroundCenter>glyph>solid",
          "ScaleUniform>glyph>solid", "Translate>Scale>glyph", "Scale>Translate>glyph", "glyph>linear", "Transform>glyph>linear", "glyph>Transform>linear",
-         "glyph>radial", "ScaleUniform>glyph>radial", "layers(+nested,currentColor,composite glyph)", "layers>[glyph,Translate>layers]", "group-opacity composite",
+         "glyph>radial", "ScaleUniform>glyph>radial", "layers(+nested,currentColor,composite glyph)", "layers>[glyph,Translate>layers]", "group-opacity composite", "group-opacity composite (translucent black palette entry)",
          "PaintColrGlyph", "Transform>PaintColrGlyph", "Translate>quad glyph", "three glyphs sharing a gradient"]
 
 VIEWBOXES = {"1200sq": Rect(0, 0, 1200, 1200), "150off": Rect(10, -20, 150, 150), "600x300": Rect(-5, 7, 600, 300)}
